@@ -1,6 +1,8 @@
 package eng
 
 import (
+	"crypto/sha256"
+	"encoding/json"
 	"fmt"
 	"math/big"
 	"math/rand"
@@ -14,6 +16,7 @@ import (
 	authtypes "github.com/cosmos/cosmos-sdk/x/auth/types"
 	govtypes "github.com/cosmos/cosmos-sdk/x/gov/types"
 	"github.com/ethereum/go-ethereum/common"
+	"github.com/ethereum/go-ethereum/crypto"
 
 	assetstypes "github.com/ExocoreNetwork/exocore/x/assets/types"
 	avstypes "github.com/ExocoreNetwork/exocore/x/avs/types"
@@ -294,7 +297,9 @@ func (a *authzRun) matrix(idx int) {
 			a.wrong("avs.createTask", "other-contract-without-avs|owner-sender", w.CallFrom("avs.createTask", avsB, "avs", sim.AddrAVS, "createTask", p, task(owner)...))
 			a.wrong("avs.createTask", "avs-contract|non-owner-sender", w.CallFrom("avs.createTask", avsA, "avs", sim.AddrAVS, "createTask", p, task(nonOwner)...))
 			a.wrong("avs.createTask", "forwarding-contract<-avs-eoa|owner-sender", w.CallVia("avs.createTask", avsA, a.other, "avs", sim.AddrAVS, "createTask", p, task(owner)...))
-			a.right("avs.createTask", w.CallFrom("avs.createTask", avsA, "avs", sim.AddrAVS, "createTask", p, task(owner)...))
+			if a.right("avs.createTask", w.CallFrom("avs.createTask", avsA, "avs", sim.AddrAVS, "createTask", p, task(owner)...)) {
+				a.taskResults(avsA, op, tag)
+			}
 			w.OptOut(op, avsA.Eth.String())
 		}
 		avsBefore = sim.ParseAVS(w.Last.Raw)
@@ -555,3 +560,49 @@ func (a *authzRun) prices(tag string) {
 }
 
 var _ = time.Second
+
+// taskResults: a task result takes effect only for the signer of the transaction (both phases).
+func (a *authzRun) taskResults(avs *sim.Account, op *ops.Oper, tag string) {
+	w := a.w
+	sk := blsKey("authz-" + tag)
+	msg := sha256.Sum256([]byte("registration-" + tag))
+	if st := w.CallFrom("bls_register", op.Acct, "avs", sim.AddrAVS, "registerBLSPublicKey", map[string]string{}, op.Acct.Eth, "key-"+tag, sk.PublicKey().Marshal(), sk.Sign(msg[:]).Marshal(), msg[:]); !st.Ack {
+		a.notEst["avs.SubmitTaskResult"] = "BLS key registration refused: " + trunc80(st.Err)
+		return
+	}
+	taddr := avs.Eth.String()
+	resp, _ := json.Marshal(avstypes.TaskResponse{TaskID: 1, NumberSum: big.NewInt(7)})
+	digest := crypto.Keccak256Hash(resp)
+	sig := sk.Sign(digest[:]).Marshal()
+	attacker := a.user2
+	mk := func(from string, stage string) *avstypes.SubmitTaskResultReq {
+		info := &avstypes.TaskResultInfo{OperatorAddress: op.Acct.Acc.String(), TaskContractAddress: taddr, TaskId: 1, Stage: stage, BlsSignature: sig}
+		if stage == avstypes.TwoPhaseCommitTwo {
+			info.TaskResponse = resp
+		}
+		return &avstypes.SubmitTaskResultReq{FromAddress: from, Info: info}
+	}
+	phase := func(entry, stage string) bool {
+		pp := map[string]string{"entry": entry}
+		a.wrong(entry, "another-account-signs-and-names-the-operator-in-the-result", w.CosmosStep(entry, attacker, sim.CosmosTxOpts{}, pp, mk(attacker.Acc.String(), stage)))
+		a.wrong(entry, "signed-by-another-key", w.CosmosStep(entry, op.Acct, sim.CosmosTxOpts{SignWith: attacker.Priv}, pp, mk(op.Acct.Acc.String(), stage)))
+		a.wrong(entry, "unsigned", w.CosmosStep(entry, op.Acct, sim.CosmosTxOpts{NoSignature: true}, pp, mk(op.Acct.Acc.String(), stage)))
+		return a.right(entry, w.CosmosStep(entry, op.Acct, sim.CosmosTxOpts{}, pp, mk(op.Acct.Acc.String(), stage)))
+	}
+	if !phase("avs.SubmitTaskResult(phase one)", avstypes.TwoPhaseCommitOne) {
+		return
+	}
+	// the statistical period of the task (response period 2, statistical period 2) starts four epochs later
+	ti, err := w.C.App.AVSManagerKeeper.GetTaskInfo(w.C.Ctx(), "1", taddr)
+	if err != nil {
+		return
+	}
+	for k := 0; k < 30 && !w.Dead; k++ {
+		e, _ := w.C.App.EpochsKeeper.GetEpochInfo(w.C.Ctx(), "minute")
+		if e.CurrentEpoch > int64(ti.StartingEpoch)+int64(ti.TaskResponsePeriod) {
+			break
+		}
+		w.Advance(w.Dt)
+	}
+	phase("avs.SubmitTaskResult(phase two)", avstypes.TwoPhaseCommitTwo)
+}
